@@ -253,7 +253,7 @@ func (x *c06) isPDTRoot(fn *ssa.Function, a ssa.Value, depth int) bool {
 	}
 	// parameter that the same function stores into pdt.pdtFrame
 	if p, ok := a.(*ssa.Parameter); ok {
-		for _, b := range fn.Blocks {
+		for _, b := range x.m.blocksOf(fn) {
 			for _, in := range b.Instrs {
 				if st, ok := in.(*ssa.Store); ok && strip(st.Val) == ssa.Value(p) {
 					if f, rest := lastField(accessPath(st.Addr)); f == x.pdtFrameF && rest == "" {
